@@ -235,7 +235,7 @@ def run(ctx, report: Report) -> None:
                          f'group {grp} of {tok} and (RE_NTH|even|odd) disagree on {d[1]!r}')
 
     # ---- R3 (tables by partial evaluation of parse_pseudo_nth / parse_pseudo_class) ------------------------
-    r3 = report.rule('C02-R3', 'every An+B spelling and keyword form builds the record of the An+B it denotes', floor=40)
+    r3 = report.rule('C02-R3', 'every An+B spelling and keyword form builds the record of the An+B it denotes', floor=38)
     from .sem import nth_table
     from ..interp import Obj, Raised, call_function
     from ..miniev import Unsupported
@@ -270,7 +270,7 @@ def run(ctx, report: Report) -> None:
                              f'{spelled} builds nth records {rec}; the An+B instance it names is {exp} (a, n, b, of_type, last)')
 
     # ---- R4 ---------------------------------------------------------------------------------------------------
-    r4 = report.rule('C02-R4', '-of-type equality = name AND namespace; every SelectorNth field is read', floor=7)
+    r4 = report.rule('C02-R4', '-of-type equality = name AND namespace; every SelectorNth field is read', floor=59)
     from .sem import same_type_table
     same_type_table(ctx, r4)
     # the siblings that are counted are the children of the real parent, whatever the document kind
